@@ -8,6 +8,11 @@ therefore avoid following the shape:
   instances are too slow or too deep for the kernel),
 * Bool-valued functions of a few flags and numbers are split on the flags and finished by `bool_arith`,
 * `enum_lt n x hx` (x < n) replaces the goal by the n goals for the n values of `x`.
+
+The translator does its part: locals are substituted, helper functions inlined, lookups in read-only package-level
+tables (arrays, slices, maps of constants) expanded into conditional chains, comparisons of string constants
+evaluated, `bytes.HasPrefix` / `bytes.Equal` against a literal expanded into comparisons of the bytes — the generated
+definitions contain none of these constructs (extract/pure.go, tables.go, lengths.go).
 -/
 namespace Astits.Tie
 
